@@ -5,7 +5,7 @@ TECH = 'explicit TLA+ specification + TLC; '
 CHECKS = {
     'C01': dict(
         technique=TECH + 'exhaustive small-scope stage machine (MC_Cyclepoints) with indexed conformance of the real compute_cyclepoints/find_extrema, plus TLC trace validation (Trace_Pipeline) of recorded compute_features / Bycycle.fit runs over the option grid',
-        text='Pipeline stage machine in TLA+ (one action per stage); TableWF, alternation and one-row-per-cycle are TLC invariants for every raw signal x filtered-sign pattern up to the bound, and the real code is compared on each of those inputs; every recorded run of the real pipeline on generated signals (10 waveform classes x option grid, both APIs) is judged stage by stage by TLC, including totality under the precondition evaluated on the recorded sign pattern.',
+        text='Pipeline stage machine in TLA+ (one action per stage); TableWF, alternation and one-row-per-cycle are TLC invariants for every raw signal x filtered-sign pattern up to the bound, and the real code is compared on each of those inputs; every recorded run of the real pipeline on generated signals (10 waveform classes x option grid, both APIs; every third case called twice with the same signal and option objects, the last call judged) is judged stage by stage by TLC, including totality under the precondition evaluated on the recorded sign pattern; MC_Pipeline composes all stages into one machine and compares the complete table of the real compute_features on every small input.',
         design_ref='6/C01',
         note='neurodsp filter output is an environment input (its arguments are checked); exhaustive only up to 8-9 samples, beyond that sampled traces; TLC and the projection are trusted.'),
     'C02': dict(
@@ -72,7 +72,7 @@ CHECKS = {
         technique=TECH + 'model checking of the Session state machine (heap of aliased option dictionaries, objects, histories) incl. a negative control, TLC-generated behaviours replayed on real Bycycle objects, and TLC trace validation (Trace_Session) binding every recorded event to the Session action; group models via Trace_Pool',
         text='Session.tla: HeapIsIntent, NoStale and OnlyEditsWrite hold for all histories to the depth bound and the pinned tree\'s write-back deviation violates them. Behaviours simulated by TLC from the same specification are replayed on real objects sharing real dictionaries; TLC compares after every action the recorded dictionary contents with the specified heap, the fitted table with the functional analysis for the settings as the user wrote them, recompute_edges(r) with the functional recomputation, attribute access and load; BycycleGroup.models are checked position by position for 2-D / 3-D arrays and every axis mode.',
         design_ref='6/C14',
-        note='analyses are abstracted to effective-parameter vectors in the model; in the replay equality of analyses is equality of table fingerprints over float limbs; option domain: min_n_cycles absent/2/3 in both dictionaries, two threshold levels, both methods, two signals.'),
+        note='analyses are abstracted to effective-parameter vectors in the model; in the replay equality of analyses is equality of table fingerprints over float limbs; option domain: six dictionaries (two per method, burst options, extrema options), min_n_cycles absent/2/3, two threshold levels, both methods and centrings, re-binding, two signals, shorthand threshold names, default vs explicit extrema options.'),
     'C15': dict(
         technique=TECH + 'the same Session model checking and replay as C14, with functional-API calls (12 functions incl. the group functions and plotting) sharing the signal array, option dictionaries, per-signal option lists and tables; Trace_Session checks argument fingerprints before/after every call and identity of repeated results',
         text='Call(f, ...) in Session.tla leaves the heap unchanged; for every recorded call TLC requires the recorded dictionary contents to equal the specified heap, the pre- and post-call fingerprints of signal / dictionaries / outer option lists / input table to coincide, and the result fingerprint to equal that of every earlier call of the same function on the same argument values, whatever happened in between (fits, edits, other calls).',
